@@ -17,7 +17,7 @@ RULE = ("cases = (configuration from the po2 option lattice: class x bits 2..8 x
         "beyond both ends, each with +-1,2,3,8,64,2^10,2^14,2^18 ulp "
         "neighbours, 1.25*2^e, 1.75*2^e, max_value and epsilon +-ulps, +-0, "
         "subnormals, largest magnitudes inside the generation bound), plus the "
-        "same exact powers / breakpoints in 3-element tensors (scalar kernel "
+        "same exact powers / breakpoints in 7-element tensors (scalar kernel "
         "path). Random part: Hypothesis tensors of rank 0..4 built from "
         "(family, exponent, ulp offset, sign). Non-trivial = tensor has at "
         "least one element whose unclipped exponent is outside the admissible "
@@ -42,8 +42,16 @@ ASSUMPTIONS = [
     "subnormal float32 inputs: either output sign accepted (TF kernels run in "
     "denormals-are-zero mode, tf.sign(-1e-40) == 0)",
     "straight-through cancellation regime |s| >= 2^24*|xq| (known finding "
-    "C03-KF1) is excluded from generation by construction (|s| < 2^23 * "
-    "2^top); excluded walk points are counted in info.excluded_ste_cancellation",
+    "C03-KF1) is excluded from generation by construction (large side: |s| < "
+    "2^23 * 2^top; small side, only when the smallest exponent lo <= -48: "
+    "|x| outside [2^(lo+23), epsilon)); excluded walk points are counted in "
+    "info.excluded_ste_cancellation; the oracle itself uses the exact bound "
+    "2^24 and judges everything below it without tolerance (x + (xq - x) is "
+    "exact there: Sterbenz for xq/2 <= |x| <= 2xq, half-ulp argument below, "
+    "common-ulp argument above)",
+    "monotone: pairs with equal inputs are not compared (the same value can "
+    "get different exponents in the vectorised and the scalar TF kernel when "
+    "it lies inside the breakpoint band)",
     "expected codes below the smallest normal float32 (2^-128, 2^-256) are "
     "classified separately (region subnormal_code)",
     "quadratic_approximation=True is only smoke-tested (finite, non-zero, "
@@ -415,7 +423,7 @@ def run(ctx):
     ctx.tick(case, labels=_labels(cfg, st, "walk"),
              nontrivial=st.get("saturated", False) and st.get("near_breakpoint", False))
     _emit(ctx, cfg, xs, fails, {"cfg": cfg, "walk": True})
-    # the same breakpoints through the scalar kernels (3-element tensors)
+    # the same breakpoints through the scalar kernels (7-element tensors)
     if f["use_ste"] or not ctx.quick:
       offs = [0] if ctx.quick else [0, 1, 2]
       sp = G.scalar_points(cfg, f, offs)
